@@ -137,6 +137,14 @@ func flowsFromOpt(v ssa.Value, pred func(ssa.Value) bool, climb bool) bool {
 						}
 					}
 				}
+				// a field of a struct carried in a local variable
+				if sal, fidx, ok := localFieldLoad(t); ok {
+					for _, val := range localStructFieldSources(sal, fidx, 0) {
+						if walk(val, stack, up) {
+							return true
+						}
+					}
+				}
 			}
 		case *ssa.FreeVar:
 			if b := freeVarBinding(t); b != nil {
@@ -446,4 +454,128 @@ func loopSource(fn *ssa.Function, b *ssa.BasicBlock) (ssa.Value, *loopInfo) {
 		}
 	}
 	return nil, lp
+}
+
+// commonOrigin: a and b are (copies of) one value: their value-preserving provenance chains
+// (conversions, phis, single-assignment locals, bound helper parameters and results) meet in a
+// non-constant value.
+func commonOrigin(a, b ssa.Value) bool {
+	if sameOrigin(a, b) {
+		return true
+	}
+	parentOf := func(v ssa.Value) *ssa.Function {
+		switch x := v.(type) {
+		case ssa.Instruction:
+			return x.Parent()
+		case *ssa.Parameter:
+			return x.Parent()
+		case *ssa.FreeVar:
+			return x.Parent()
+		}
+		return nil
+	}
+	home := parentOf(a)
+	collect := func(v ssa.Value) map[ssa.Value]bool {
+		m := map[ssa.Value]bool{}
+		flowsFromLocal(v, func(x ssa.Value) bool {
+			// only values of the function the comparison is made in: two calls of one helper are
+			// two values, whatever the helper returns
+			if _, isC := x.(*ssa.Const); !isC && (home == nil || parentOf(x) == home) {
+				m[x] = true
+			}
+			return false
+		})
+		return m
+	}
+	ma := collect(a)
+	for x := range collect(b) {
+		if ma[x] {
+			return true
+		}
+	}
+	return false
+}
+
+// localStructFieldSources: the values that field idx of the struct held in local variable al (or of
+// struct value sv) may hold: stores into the field address, and whole-struct assignments traced back
+// to their own field stores (composite literals, copies between locals, helper results, phis).
+func localStructFieldSources(al *ssa.Alloc, idx int, depth int) []ssa.Value {
+	var res []ssa.Value
+	if al == nil || depth > 4 {
+		return nil
+	}
+	refs := al.Referrers()
+	if refs == nil {
+		return nil
+	}
+	for _, r := range *refs {
+		switch x := r.(type) {
+		case *ssa.FieldAddr:
+			if x.X == ssa.Value(al) && x.Field == idx {
+				if fr := x.Referrers(); fr != nil {
+					for _, u := range *fr {
+						if st, ok := u.(*ssa.Store); ok && st.Addr == ssa.Value(x) {
+							res = append(res, st.Val)
+						}
+					}
+				}
+			}
+		case *ssa.Store:
+			if x.Addr == ssa.Value(al) {
+				res = append(res, structValueFieldSources(x.Val, idx, depth+1)...)
+			}
+		}
+	}
+	return res
+}
+
+func structValueFieldSources(sv ssa.Value, idx int, depth int) []ssa.Value {
+	if sv == nil || depth > 4 {
+		return nil
+	}
+	switch t := sv.(type) {
+	case *ssa.UnOp:
+		if t.Op == token.MUL {
+			if al, ok := t.X.(*ssa.Alloc); ok {
+				return localStructFieldSources(al, idx, depth+1)
+			}
+		}
+	case *ssa.Phi:
+		var res []ssa.Value
+		for _, e := range t.Edges {
+			res = append(res, structValueFieldSources(e, idx, depth+1)...)
+		}
+		return res
+	case *ssa.Call, *ssa.Extract:
+		if _, h, ri := moduleCallee(sv); h != nil {
+			var res []ssa.Value
+			for _, b := range h.Blocks {
+				if ret, ok := b.Instrs[len(b.Instrs)-1].(*ssa.Return); ok && ri < len(ret.Results) {
+					res = append(res, structValueFieldSources(ret.Results[ri], idx, depth+1)...)
+				}
+			}
+			return res
+		}
+	}
+	return nil
+}
+
+// localFieldLoad: v loads field idx of a struct held in a local variable.
+func localFieldLoad(v ssa.Value) (*ssa.Alloc, int, bool) {
+	u, ok := v.(*ssa.UnOp)
+	if !ok || u.Op != token.MUL {
+		return nil, 0, false
+	}
+	fa, ok := u.X.(*ssa.FieldAddr)
+	if !ok {
+		return nil, 0, false
+	}
+	al, ok := fa.X.(*ssa.Alloc)
+	if !ok {
+		return nil, 0, false
+	}
+	if _, isStruct := al.Type().(*types.Pointer).Elem().Underlying().(*types.Struct); !isStruct {
+		return nil, 0, false
+	}
+	return al, fa.Field, true
 }
